@@ -271,67 +271,147 @@ func valEq(a, b driver.Value) bool {
 
 type sqlPred func(r sqlRow) bool
 
-// parseCond parses "term AND term ..." consuming placeholders in order.
+// parseCond parses a WHERE condition with SQL's precedence — OR binds weaker than AND, parentheses group — consuming the
+// placeholders in textual order:   expr := conj { OR conj }   conj := atom { AND atom }   atom := ( expr ) | comparison
 func parseCond(cond string, ac *argCursor) (sqlPred, error) {
-	var preds []sqlPred
-	for _, term := range regexp.MustCompile(`(?i)\s+and\s+`).Split(strings.TrimSpace(cond), -1) {
-		term = strings.TrimSpace(term)
-		if term == "" {
-			continue
+	// tokenise: parentheses, the words and / or, and the comparison texts between them
+	var toks []string
+	cur := ""
+	flush := func() {
+		if t := strings.TrimSpace(cur); t != "" {
+			toks = append(toks, t)
 		}
-		inner := strings.TrimSpace(strings.TrimSuffix(strings.TrimPrefix(term, "("), ")"))
-		var alts []sqlPred
-		for _, alt := range regexp.MustCompile(`(?i)\s+or\s+`).Split(inner, -1) {
-			alt = strings.TrimSpace(alt)
-			switch {
-			case strings.HasSuffix(strings.ToLower(alt), " is not null"):
-				f := strings.TrimSpace(alt[:len(alt)-len(" is not null")])
-				alts = append(alts, func(r sqlRow) bool { return r[f] != nil })
-			case strings.Contains(alt, "<"):
-				kv := strings.SplitN(alt, "<", 2)
-				f, v := strings.TrimSpace(kv[0]), ac.next()
-				alts = append(alts, func(r sqlRow) bool {
-					a, ok1 := r[f].(time.Time)
-					b, ok2 := v.(time.Time)
-					return ok1 && ok2 && a.Before(b)
-				})
-			case strings.Contains(alt, "="):
-				kv := strings.SplitN(alt, "=", 2)
-				f, rhs := strings.TrimSpace(kv[0]), strings.TrimSpace(kv[1])
-				var v driver.Value
-				switch strings.ToLower(rhs) {
-				case "?":
-					v = ac.next()
-				case "true":
-					v = true
-				case "false":
-					v = false
-				default:
-					v = rhs
-				}
-				alts = append(alts, func(r sqlRow) bool { return valEq(r[f], v) })
-			default:
-				return nil, fmt.Errorf("sqlmini: unsupported condition %q", alt)
+		cur = ""
+	}
+	words := strings.Fields(strings.NewReplacer("(", " ( ", ")", " ) ").Replace(cond))
+	for _, w := range words {
+		switch strings.ToLower(w) {
+		case "(", ")":
+			flush()
+			toks = append(toks, w)
+		case "and", "or":
+			flush()
+			toks = append(toks, strings.ToLower(w))
+		default:
+			if cur != "" {
+				cur += " "
 			}
+			cur += w
 		}
-		as := alts
-		preds = append(preds, func(r sqlRow) bool {
-			for _, a := range as {
-				if a(r) {
+	}
+	flush()
+	pos := 0
+	peek := func() string {
+		if pos < len(toks) {
+			return toks[pos]
+		}
+		return ""
+	}
+	var parseExpr func() (sqlPred, error)
+	parseAtom := func() (sqlPred, error) {
+		t := peek()
+		if t == "(" {
+			pos++
+			p, err := parseExpr()
+			if err != nil {
+				return nil, err
+			}
+			if peek() != ")" {
+				return nil, fmt.Errorf("sqlmini: missing ) in %q", cond)
+			}
+			pos++
+			return p, nil
+		}
+		if t == "" || t == ")" || t == "and" || t == "or" {
+			return nil, fmt.Errorf("sqlmini: unexpected %q in condition %q", t, cond)
+		}
+		pos++
+		alt := t
+		switch {
+		case strings.HasSuffix(strings.ToLower(alt), " is not null"):
+			f := strings.TrimSpace(alt[:len(alt)-len(" is not null")])
+			return func(r sqlRow) bool { return r[f] != nil }, nil
+		case strings.Contains(alt, "<"):
+			kv := strings.SplitN(alt, "<", 2)
+			f, v := strings.TrimSpace(kv[0]), ac.next()
+			return func(r sqlRow) bool {
+				a, ok1 := r[f].(time.Time)
+				b, ok2 := v.(time.Time)
+				return ok1 && ok2 && a.Before(b)
+			}, nil
+		case strings.Contains(alt, "="):
+			kv := strings.SplitN(alt, "=", 2)
+			f, rhs := strings.TrimSpace(kv[0]), strings.TrimSpace(kv[1])
+			var v driver.Value
+			switch strings.ToLower(rhs) {
+			case "?":
+				v = ac.next()
+			case "true":
+				v = true
+			case "false":
+				v = false
+			default:
+				v = rhs
+			}
+			return func(r sqlRow) bool { return valEq(r[f], v) }, nil
+		}
+		return nil, fmt.Errorf("sqlmini: unsupported condition %q", alt)
+	}
+	parseConj := func() (sqlPred, error) {
+		var ps []sqlPred
+		for {
+			p, err := parseAtom()
+			if err != nil {
+				return nil, err
+			}
+			ps = append(ps, p)
+			if peek() != "and" {
+				break
+			}
+			pos++
+		}
+		return func(r sqlRow) bool {
+			for _, p := range ps {
+				if !p(r) {
+					return false
+				}
+			}
+			return true
+		}, nil
+	}
+	parseExpr = func() (sqlPred, error) {
+		var ps []sqlPred
+		for {
+			p, err := parseConj()
+			if err != nil {
+				return nil, err
+			}
+			ps = append(ps, p)
+			if peek() != "or" {
+				break
+			}
+			pos++
+		}
+		return func(r sqlRow) bool {
+			for _, p := range ps {
+				if p(r) {
 					return true
 				}
 			}
 			return false
-		})
+		}, nil
 	}
-	return func(r sqlRow) bool {
-		for _, p := range preds {
-			if !p(r) {
-				return false
-			}
-		}
-		return true
-	}, nil
+	if len(toks) == 0 {
+		return func(sqlRow) bool { return true }, nil
+	}
+	p, err := parseExpr()
+	if err != nil {
+		return nil, err
+	}
+	if pos != len(toks) {
+		return nil, fmt.Errorf("sqlmini: trailing %q in condition %q", toks[pos:], cond)
+	}
+	return p, nil
 }
 
 func (e *sqlEngine) exec(c *sqlConn, q string, args []driver.Value) (driver.Result, error) {
